@@ -36,7 +36,7 @@ def NumForced (forced : Option Ty) : Prop := ∀ f, forced = some f → f.isNumb
 /-- an untyped integer (or rune) constant node -/
 def UNode (n : NS) : Prop := ∃ k v, (k = UK.int ∨ k = UK.rune) ∧ n.ty = .u k ∧ n.rv = .c (.int v)
 
-theorem shiftLeftY_U (c0 : NS) (h : UNode c0) : shiftLeftY c0 = .ok c0 := by
+theorem shiftLeftY_U (c0 : NS) (h : UNode c0) : shiftLeftY F0 c0 = .ok c0 := by
   obtain ⟨k, v, _, hty, hrv⟩ := h
   obtain ⟨rv0, ty0, s0, i0, f0, t0⟩ := c0
   simp only at hty hrv
@@ -104,7 +104,13 @@ theorem evalY_ufrag_indep : ∀ e, ufrag e = true → ∀ (env : Env) (forced : 
     ∀ n, evalY F0 { iota := env.iota } none e = .ok n → UNode n := by
   intro e
   induction e with
-  | int v => intro _ env forced _; exact ⟨by simp [evalY], fun n h => by simp [evalY] at h; subst h; exact ⟨.int, v, Or.inl rfl, rfl, rfl⟩⟩
+  | int v =>
+    intro _ env forced _
+    refine ⟨by simp [evalY], fun n h => ?_⟩
+    simp only [evalY, F0_chk, Expected.C03.checkFacts] at h
+    split at h
+    · cases h
+    · injection h with h; subst h; exact ⟨.int, v, Or.inl rfl, rfl, rfl⟩
   | rune v => intro _ env forced _; exact ⟨by simp [evalY], fun n h => by simp [evalY] at h; subst h; exact ⟨.rune, v, Or.inr rfl, rfl, rfl⟩⟩
   | iota => intro _ env forced _; exact ⟨by simp [evalY], fun n h => by simp [evalY] at h; subst h; exact ⟨.int, _, Or.inl rfl, rfl, rfl⟩⟩
   | flt q => intro h; simp [ufrag] at h
@@ -197,7 +203,7 @@ theorem evalY_ufrag_indep : ∀ e, ufrag e = true → ∀ (env : Env) (forced : 
           split
           · rfl
           · split
-            · simp [h0ty, h1ty, Ty.untyped]
+            · simp [keepY, h0ty, h1ty, Ty.untyped]
             · rfl
         | reject => rfl
         | crash => rfl
@@ -236,27 +242,5 @@ theorem assignGo_ty (x : Spec.GV) (t t' : BT) (v : CV) (h : Spec.assignGo x t = 
       · injection h with h; injection h with _ h2; exact h2.symm
       · cases h
     · cases h
-
-/-- **`const c = e`** on the untyped integer fragment: all three walks and the use agree with the specification -/
-theorem const_decl_stages (i : Nat) (e : CExpr) (hs : ufrag e = true) (hl : litBound e = true)
-    (v : CV × BT) (hgo : Spec.declGo i none e = .ok v) (first : Bool) :
-    ∃ n m, constGtaY F0 i first none e = .ok n ∧ constCfgY F0 i none e n = .ok m ∧ constUseY F0 m = .ok v := by
-  simp only [Spec.declGo] at hgo
-  obtain ⟨gv, hgv, hasg⟩ := bind_eq_ok hgo
-  obtain ⟨n, hn, hinv⟩ := evalY_int_correct { iota := i } rfl e (ufrag_intShape e hs) hl gv hgv
-  obtain ⟨k, x, hk, hnty, hnrv⟩ := (evalY_ufrag_indep e hs { iota := i } none (fun _ h => by cases h)).2 n hn
-  have h1 := (evalY_ufrag_indep e hs { iota := i, inConst := true, noFrame := first } none (fun _ h => by cases h)).1
-  have hnum : NumForced (some n.ty) := by
-    intro f hf; injection hf with hf; subst hf; rw [hnty]; rcases hk with rfl | rfl <;> rfl
-  have h2 := (evalY_ufrag_indep e hs { iota := i, inConst := true, pass2 := true } (some n.ty) hnum).1
-  refine ⟨n, n, ?_, ?_, ?_⟩
-  · simp only [constGtaY, unmodelled_none]; rw [h1]; exact hn
-  · simp only [constCfgY]; rw [h2]; exact hn
-  · obtain ⟨cv, t⟩ := v
-    have hgty : gv.ty = .u k := by rw [← hinv.1, hnty]
-    have ht : t = Spec.defaultGo gv.ty := assignGo_ty _ _ _ _ hasg
-    subst ht
-    simp only [constUseY, hnty, Ty.untyped, if_true, defaultTypeY_int n _ hinv]
-    exact assign_materialise n _ hinv _ cv hasg (defaultGo_int _ n hinv)
 
 end YaegiVerif.Proofs.C03
